@@ -1,6 +1,7 @@
 (* C19 — property theorems only. Each is closed by `exact <lemma>` and followed by Print Assumptions. *)
 From Coq Require Import QArith Qabs List ZArith Reals Permutation.
-From GeosV.C19 Require Import LinRefDefs LinRefProofs LinRefNearest CheckDefs CheckLists CheckGeom MergeLength CheckProofs.
+From GeosV.C19 Require Import LinRefDefs LinRefProofs LinRefNearest CheckDefs CheckLists CheckGeom MergeLength CheckProofs GenTie.
+From GeosV.Gen Require Import LR_compareLocationValues.
 Import ListNotations.
 
 (* ================================================================ linear referencing (model M of LengthLocationMap & co.) *)
@@ -60,6 +61,13 @@ Theorem C19_project_interpolate_multi_refuted :
   d2_pt_seg mref_p (20, 5)%Z (30, 5)%Z == 1.
 Proof. exact project_interpolate_multi_refuted. Qed.
 Print Assumptions C19_project_interpolate_multi_refuted.
+
+(* tie G: what the C++ source of LinearLocation::compareLocationValues says (translated on every run) is the model's order *)
+Theorem C19_gen_compareLocationValues_eq : forall (c0 s0 c1 s1 : nat) (n0 n1 : Z) (d : positive),
+  g_compareLocationValues (Z.of_nat c0) (Z.of_nat s0) n0 (Z.of_nat c1) (Z.of_nat s1) n1
+  = cmp_code (cmp_loc (mkLoc c0 s0 (n0 # d)) (mkLoc c1 s1 (n1 # d))).
+Proof. exact gen_compareLocationValues_eq. Qed.
+Print Assumptions C19_gen_compareLocationValues_eq.
 
 (* non-vacuity: a two-component line with Pythagorean segments *)
 Definition ex_g : lin := [[5; 10]; [13]].
